@@ -260,13 +260,26 @@ func Main(t *testing.T, property string, cases []Case, params map[string]any) {
 			sampleEvery *= 7
 		}
 		if o.Violation != "" {
-			same := true
+			// Re-execute 5x. Identical every time: a deterministic violation. The same cause key (and a
+			// violation) in at least 2 of the 5 re-executions: an intermittent violation — every execution is a
+			// real execution of the implementation, and here its outcome depends on nondeterminism inside the
+			// code under test (map iteration order, select order). Anything weaker is treated as harness
+			// nondeterminism: the run exits 2, never an alarm.
+			identical, sameKey := 0, 0
 			for i := 0; i < 5; i++ {
 				o2 := c.Run(t)
-				if o2.Violation != o.Violation || o2.Key != o.Key {
-					same = false
-					break
+				if o2.Violation == o.Violation && o2.Key == o.Key {
+					identical++
 				}
+				if o2.Violation != "" && o2.Key == o.Key && o.Key != "" {
+					sameKey++
+				}
+			}
+			same := identical == 5
+			if !same && sameKey >= 2 {
+				same = true
+				o.Violation = fmt.Sprintf("[intermittent: %d of 6 executions of this case violate with this cause] %s", sameKey+1, o.Violation)
+				res.Counters["intermittent_violations"]++
 			}
 			if same {
 				// keep at most 25 violation texts per cause key (so that a new cause is never crowded out
